@@ -39,6 +39,7 @@ import Mathlib.Algebra.Order.Ring.Int
 import Mathlib.Tactic.IntervalCases
 import Mathlib.Tactic.Ring
 import Mathlib.Algebra.Order.Field.Rat
+import CBV.Gen.TC13
 
 namespace CBV.C13
 
